@@ -57,8 +57,10 @@ Fixpoint record_cats (cols : list (str * list str)) (cats : list (str * list str
       end
   end.
 
-(* keepcat = true: the code as it is (the dtype marks stay on the object's frame);
-   keepcat = false: repaired behaviour (_handle_transforms works on a copy). *)
+(* keepcat = false: the code as it is since fix commit 220dc27 (_handle_transforms works on
+   a copy, the stored frame keeps its dtype); keepcat = true: the behaviour BEFORE that commit
+   (the 'category' dtype stayed on the object's frame), kept as the record of the repaired
+   defect C06-F7. *)
 Definition step (fixed keepcat : bool) (o : obj) (p : op) : obj * outcome :=
   let st := o_tab o in
   match p with
